@@ -21,6 +21,7 @@ import (
 func main() {
 	dir := flag.String("dir", ".", "module root (rewritten in place)")
 	funcs := flag.Bool("funcs", false, "also rename unexported package-level functions and methods")
+	fields := flag.Bool("fields", false, "also rename unexported struct fields")
 	goos := flag.String("goos", "", "GOOS for loading (e.g. darwin for pkg/server)")
 	flag.Parse()
 	env := append(os.Environ(), "GOFLAGS=-mod=mod", "GOPROXY=off", "GOSUMDB=off", "GOTOOLCHAIN=local", "GOWORK=off", "CGO_ENABLED=0")
@@ -45,6 +46,9 @@ func main() {
 		switch x := o.(type) {
 		case *types.Var:
 			if x.IsField() {
+				if *fields && !x.Exported() && !x.Embedded() {
+					return o.Name() + "Q", true
+				}
 				return "", false
 			}
 			if o.Parent() == o.Pkg().Scope() {
